@@ -28,8 +28,14 @@ def cases(run: Run):
         out.append({
             "ns": ns, "nt": nt, "decision": decision, "steps": rng.randint(2, 3), "displace": [rng.random() < 0.4 for _ in range(nt)],
             "slow": [rng.random() < 0.25 for _ in range(ns)], "narrow": rng.random() < 0.4, "seed": rng.randint(1, 10**6), "orders": rng.sample(range(1, 1000), run.n(3, 6)),
+            # serendipitous observations on (with the all-visible policy and a wide cone a sensor then reports the same target from several of its
+            # jobs in one step); agent id 0 is a legal id
+            "bg": rng.random() < 0.5, "wide": rng.random() < 0.5, "sid0": rng.random() < 0.35,
         })
     out.extend(mixed_outcome_cases(rng))
+    # one sensor reporting the same target from several of its jobs in a step: all-visible policy, wide cones, serendipitous observations on
+    out.append({"ns": rng.randint(1, 2), "nt": rng.randint(2, 3), "decision": "AllVisibleDecision", "steps": 3, "displace": [False] * 3, "slow": [False] * 2, "narrow": False,
+                "seed": rng.randint(1, 10**6), "orders": rng.sample(range(1, 1000), 2), "bg": True, "wide": True, "sid0": False})
     return out
 
 
@@ -53,9 +59,10 @@ def build_case(c):
     for k in range(c["ns"]):
         lat, lon = SITES[k]
         narrow = c["narrow_s"][k] if "narrow_s" in c else c["narrow"]
-        fov = {"fov_shape": "conic", "cone_angle": 1.0} if narrow else {"fov_shape": "conic", "cone_angle": 90.0} if "narrow_s" in c else None
+        fov = {"fov_shape": "conic", "cone_angle": 1.0} if narrow else {"fov_shape": "conic", "cone_angle": 90.0} if ("narrow_s" in c or c.get("wide")) else None
         # the all-visible policy is only accepted for advanced (phased-array) radars
-        sensors.append(scen.radar_cfg(60001 + k, lat, lon, slew=(0.05 if c["slow"][k] else 5.0), fov=fov, adv=(c["decision"] == "AllVisibleDecision")))
+        sid = 0 if (k == 0 and c.get("sid0")) else 60001 + k
+        sensors.append(scen.radar_cfg(sid, lat, lon, slew=(0.05 if (c["slow"][k] and sid != 0) else 5.0), fov=fov, adv=(c["decision"] == "AllVisibleDecision"), bg=bool(c.get("bg"))))
     targets = []
     for k in range(c["nt"]):
         lat, lon = TGT_SPOTS[k]
@@ -211,8 +218,14 @@ def oracle_single(run: Run, c, res):
         T, S = st["targets"], st["sensor_list"]
         tasked = [(S[j], T[i]) for i in range(len(T)) for j in range(len(S)) if st["dec"][i][j]]
         for s, t in tasked:
-            n_obs = sum(1 for (so, to, _) in st["obs"] if (so, to) == (s, t))
-            n_miss = sum(1 for (sm, tm, _) in st["miss"] if (sm, tm) == (s, t))
+            # the record for the primary target is the one the job of that target returns (with serendipitous observations on, another job of
+            # the same sensor may report the target as well: that is an extra observation, not this pair's record)
+            own = [j for j in st["jobs"] if j["k"] == "T" and j["target"] == t]
+            n_obs = sum(1 for j in own for (so, to) in j["obs"] if (so, to) == (s, t))
+            n_miss = sum(1 for j in own for (flag, sm, tm) in j["missed"] if flag and (sm, tm) == (s, t))
+            if not own:
+                n_obs = sum(1 for (so, to, _) in st["obs"] if (so, to) == (s, t))
+                n_miss = sum(1 for (sm, tm, _) in st["miss"] if (sm, tm) == (s, t))
             if n_obs + n_miss != 1:
                 fails.append(("records", f"step {k + 1}: tasked pair sensor {s} / target {t} has {n_obs} observations and {n_miss} missed records (decision {c['decision']})"))
             sens = st["sensors"][s]
